@@ -204,6 +204,9 @@ def run_e3(sc, scratch=None):
                     payload = np.ma.array(payload, mask=rig.maskarr.copy())
                 elif rig.masked == "nomask":
                     payload = np.ma.array(payload)
+                if sc["src"].get("time_axis"):
+                    # the producer hands over an array of its own that already carries the leading time axis
+                    payload = (payload[np.newaxis, ...] if isinstance(payload, np.ndarray) else np.array([payload])).copy()
                 exc = None
                 try:
                     rig.out.push_data(payload, dt(t))
